@@ -323,3 +323,68 @@ def mk_ihgo(read, how, tier='quick'):
 for _read in (True, False):
     for _how in (0, 1, 2):
         _add(mk_ihgo(_read, _how, 'quick' if (_read and _how in (0, 1)) or (not _read and _how == 2) else 'thorough'))
+
+
+# ---------------------------------------------------------------- label KINDS symbolic: ints, floats, strings, tuples, None in one index
+
+POOL = (1, 2.5, 'a', (1, 2), None, 2)
+
+
+def body_label_kinds(env, p0, p1, p2, p3, go):
+    from vf import rt
+    ps = [_conc(v, 0, len(POOL) - 1) for v in (p0, p1, p2)] + [_conc(p3, 0, 2)]
+    go = bool(go)
+
+    def run():
+        sf = env.sf
+        from static_frame.core.exception import ErrorInitIndex
+        labels = [POOL[p] for p in ps[:3]]
+        extra = POOL[ps[3]]
+        cls = sf.IndexGO if go else sf.Index
+        dup = len(set(ps[:3])) < 3
+        try:
+            idx = cls(labels)
+            built = True
+        except ErrorInitIndex:
+            built = False
+        got, exp = [built], [not dup]
+        if not built or dup:
+            return got, exp
+
+        def views(ix, labs):
+            from static_frame.core.exception import LocInvalid
+            locs = []
+            for probe in POOL:
+                try:
+                    locs.append(env.obs(ix.loc_to_iloc(probe)))
+                except (KeyError, LocInvalid):
+                    locs.append('absent')
+            return [len(ix), env.obs(list(ix)), env.obs(ix.values.tolist()), env.obs(ix.positions.tolist()), locs, [bool(probe in ix) for probe in POOL]]
+
+        def ref(labs):
+            return [len(labs), [env.obs(l) for l in labs], [env.obs(l) for l in labs], list(range(len(labs))),
+                    [(labs.index(probe) if probe in labs else 'absent') for probe in POOL], [probe in labs for probe in POOL]]
+        got.append(views(idx, labels)); exp.append(ref(labels))
+        if go:
+            try:
+                idx.append(extra)
+                appended = True
+            except KeyError:
+                appended = False
+            got.append(appended); exp.append(extra not in labels)
+            if appended and extra not in labels:
+                labels = labels + [extra]
+            got.append(views(idx, labels)); exp.append(ref(labels))
+        else:
+            # a derived selection keeps the bijection
+            sub = idx.iloc[[2, 0]]
+            got.append(views(sub, [labels[2], labels[0]])); exp.append(ref([labels[2], labels[0]]))
+        return got, exp
+    return rt.untraced(run)
+
+
+_add(Cond('index_label_kinds', [('p0', 'int'), ('p1', 'int'), ('p2', 'int'), ('p3', 'int'), ('go', 'bool')], body_label_kinds,
+        ranges={p: (0, len(POOL) - 1) for p in ('p0', 'p1', 'p2')} | {'p3': (0, 2)}, pre=['go or p3 == 0'],
+        functions=['Index.__init__', 'Index._loc_to_iloc'],
+        bounds=f'Index / IndexGO (symbolic) of 3 labels, each drawn symbolically from the pool {POOL} (repeats = duplicates); for IndexGO one more label (one of the first three pool entries) is appended',
+        route='Index of mixed label kinds: duplicates rejected; len / iteration / values / positions / loc_to_iloc / membership of EVERY pool element agree with the list; append accepted iff the label is new', timeout=600))
